@@ -2,20 +2,22 @@ pub mod model;
 pub mod dom;
 pub mod env;
 pub mod cx;
+pub mod ops;
 pub mod checks;
+pub mod checks2;
+pub mod corpus;
 
-use checks::Ck;
 use cx::Cx;
 use dom::*;
 use epserde::deser::{DeserType, Deserialize, DeserializeInner};
 use epserde::ser::{Serialize, SerializeInner};
 use epserde::traits::*;
+use ops::{Ops, TypeOps};
 
 /// One closed type of the universe, type-erased.
 pub struct Entry {
     pub id: &'static str,
-    pub run: fn(&str, &mut Cx),
-    pub ty: fn() -> model::Ty,
+    pub ops: Box<dyn TypeOps>,
 }
 
 pub fn entry<T>(id: &'static str) -> Entry
@@ -23,20 +25,25 @@ where
     T: Dom + Serialize + Deserialize + SerializeInner + DeserializeInner + TypeHash + AlignHash,
     for<'a> DeserType<'a, T>: EpsView,
 {
-    Entry { id, run: run_check::<T>, ty: T::ty }
+    Entry { id, ops: Box::new(Ops::<T>::new()) }
 }
 
-fn run_check<T>(check: &str, cx: &mut Cx)
-where
-    T: Dom + Serialize + Deserialize + SerializeInner + DeserializeInner + TypeHash + AlignHash,
-    for<'a> DeserType<'a, T>: EpsView,
-{
+pub fn run_check(t: &dyn TypeOps, check: &str, cx: &mut Cx) {
+    let deep = cx.tier == cx::Tier::Thorough && t.ty().depth() <= 1;
     match check {
-        "C01" => Ck::<T>::c01(cx),
-        "C02" => Ck::<T>::c02(cx, false),
-        "C03" => Ck::<T>::c02(cx, true),
-        "C06" => Ck::<T>::c06(cx),
-        "C07" => Ck::<T>::c07(cx),
+        "C01" => checks::c01(t, cx),
+        "C02" => checks::c02(t, cx, false),
+        "C03" => checks::c02(t, cx, true),
+        "C06" => checks::c06(t, cx),
+        "C07" => checks::c07(t, cx),
+        "GOLDGEN" => checks::goldgen(t, cx),
+        "C10" => checks2::c10(t, cx),
+        "C11" => checks2::c11(t, cx),
+        "C12" => checks2::c12(t, cx),
+        "C13" => checks2::c13(t, cx, if deep { 2 } else { 1 }),
+        "C14" => checks2::c14(t, cx, if deep { 2 } else { 1 }),
+        "C15" => checks2::c15(t, cx),
+        "C18" => checks2::c18(t, cx),
         other => panic!("unknown generic check {}", other),
     }
 }
